@@ -1,5 +1,6 @@
 import PyTrie.Lemmas.RawRefines
 import PyTrie.Lemmas.BinRawRefines
+import PyTrie.Lemmas.ReadRefines
 /-! # The raw-level write path refines the effect layer (tightens the tie for C01, C02, C04, C05, C06, C07)
 
 `Model/HexRaw.lean` transcribes `_set`, `_set_kv_node`, `_set_branch_node`, `_delete`, `_delete_kv_node`,
@@ -55,5 +56,20 @@ theorem bin_set_blank (H : Bytes → Bytes) (hlen : ∀ b, (H b).length = 32) (k
       .ok (rootOf H (match bsetTop none k v sub with | .ok t' => t' | .error _ => none),
            { db := applySaves H st.db (bsetTopS none k v sub).2 }) :=
   BinRaw.rawSet_blank H hlen k hk v sub st fuel hf
+
+end PyTrie.Props.Raw
+
+/-! ## Hexary read path -/
+namespace PyTrie.Props.Raw
+open PyTrie PyTrie.Hex PyTrie.HexD PyTrie.HexRaw
+
+/-- `annotate_node` over the raw encoding of a node is the tree-level annotation -/
+theorem annotate_refines (H : Bytes → Bytes) (hlen : ∀ b, (H b).length = 32) (n : Node) :
+    annotateD (toItem H n) = some (Ann.toD H (annotate n)) := annotateD_toItem H hlen n
+
+/-- raw-level `_get_proof` over the database = the tree-level proof, node for node -/
+theorem get_proof_refines (H : Bytes → Bytes) (hlen : ∀ b, (H b).length = 32) (t : Node) (hc : Canon t) (db : Db)
+    (hst : StoredD H db t) (k : Path) (fuel : Nat) (hf : k.length + 1 < fuel) :
+    getProofD H db fuel (toItem H t) k = .ok ((getProof t k).map (toItem H)) := getProofD_refines H hlen t hc db hst k fuel hf
 
 end PyTrie.Props.Raw
